@@ -139,7 +139,12 @@ func (r *Record) Bin() int {
 	if r.Pos < 0 && r.Flags&(Unmapped|MateUnmapped) == Unmapped|MateUnmapped {
 		return 4680 // reg2bin(-1, 0)
 	}
-	return int(internal.BinFor(r.Pos, r.End()))
+	end := r.End()
+	if end <= r.Pos {
+		// Alignments consuming no reference are binned as length one.
+		end = r.Pos + 1
+	}
+	return int(internal.BinFor(r.Pos, end))
 }
 
 // Len returns the length of the alignment.
